@@ -16,7 +16,15 @@ communicate through:
   command channel and the number `recvd` of commands `ArbiterRunner` (arbiter.rs:295-317) has
   received, the `LocalSet` queue `spawned` of futures `spawn_local`ed but not yet polled, the start
   log `started`, and the life-cycle flags `ended` (runner returned `Ready`), `gone` (receiver dropped
-  — `send` fails from here on), `exited` (Deregister enqueued, thread finished — `join` returns).
+  — `send` fails from here on), `exited` (Deregister enqueued, thread finished — `join` returns);
+* the **system arbiter** (`Arbiter::in_new_system`, arbiter.rs:209-219; registered under `usize::MAX`
+  by `System::with_tokio_rt`, system.rs:57-63): the same `ArbiterRunner`, but run as a *local task* of
+  the system thread.  It exists from `init` on (its `Register` is the first command in the system
+  queue), it has no thread of its own — so it never deregisters and cannot be joined — and the
+  `LocalSet` that polls the futures it spawned is the system thread's, which keeps running after the
+  runner has returned: futures received *before* the `Stop` may still start afterwards (flag `sys`);
+* per OS thread the two **thread-locals** `HANDLE` / `CURRENT` (`TLS`, at the end of this file): what
+  `Arbiter::current()` / `System::current()` return on a thread that hosts its 1st, 2nd, 3rd … System.
 
 `step` takes the *label chosen by a scheduler*; a label that is not enabled leaves the state
 unchanged.  Theorems quantify over arbitrary label lists, hence over all schedules and over all
@@ -48,6 +56,9 @@ structure Arb where
   ended : Bool := false
   gone : Bool := false
   exited : Bool := false
+  /-- the system arbiter: a local task of the system thread (no thread of its own, never joins or
+      deregisters; the `LocalSet` polling its futures outlives the runner) -/
+  sys : Bool := false
   deriving Repr, Inhabited
 
 structure State where
@@ -61,9 +72,16 @@ structure State where
   rets : List Bool := []
   deriving Inhabited
 
-def init : State := {}
-
 def upd {α : Type} (f : Nat → α) (i : Nat) (v : α) : Nat → α := fun j => if j = i then v else f j
+
+/-- key under which the system arbiter is registered: `usize::MAX` (system.rs:62) -/
+def sysArbId : Nat := 18446744073709551615
+
+/-- the state `System::new()` returns in: the system arbiter exists (`Arbiter::in_new_system`) and its
+`RegisterArbiter(usize::MAX, _)` is the first command in the system queue (system.rs:57-63) -/
+def init : State :=
+  { arbs := upd (fun _ => {}) sysArbId { created := true, sys := true },
+    syssent := [.register sysArbId] }
 
 @[simp] theorem upd_same {α : Type} (f : Nat → α) (i : Nat) (v : α) : upd f i v i = v := by simp [upd]
 theorem upd_other {α : Type} (f : Nat → α) (i j : Nat) (v : α) (h : j ≠ i) : upd f i v j = f j := by
@@ -86,7 +104,8 @@ inductive Act where
   | task (i : Nat)
   /-- `block_on(ArbiterRunner)` has returned on thread `i`: the runner (and its receiver) is dropped -/
   | close (i : Nat)
-  /-- thread `i` enqueues `DeregisterArbiter(i)` (arbiter.rs:146-148) and finishes -/
+  /-- thread `i` enqueues `DeregisterArbiter(i)` (arbiter.rs:146-148) and finishes (not the system
+      arbiter: it has no thread of its own) -/
   | fin (i : Nat)
   deriving DecidableEq, Repr, Inhabited
 
@@ -102,9 +121,11 @@ def Arb.recv (a : Arb) : Arb :=
     | some (.exec t) => { a with recvd := a.recvd + 1, spawned := a.spawned ++ [t] }
   else a
 
-/-- first poll of the oldest spawned future (only while the `LocalSet` is still being driven) -/
+/-- first poll of the oldest spawned future (only while the `LocalSet` is still being driven: on an
+`Arbiter::new` thread `block_on(ArbiterRunner)` returns when the runner does and nothing is polled
+any more; the system arbiter's futures live in the system thread's `LocalSet`, which goes on) -/
 def Arb.startTask (a : Arb) : Arb :=
-  if a.ended then a else
+  if a.ended && !a.sys then a else
     match a.spawned with
     | [] => a
     | t :: r => { a with spawned := r, started := a.started ++ [t] }
@@ -136,7 +157,7 @@ def step (s : State) : Act → State
       { s with arbs := upd s.arbs i { s.arbs i with gone := true } }
     else s
   | .fin i =>
-    if (s.arbs i).gone && !(s.arbs i).exited then
+    if (s.arbs i).gone && !(s.arbs i).exited && !(s.arbs i).sys then
       { s with arbs := upd s.arbs i { s.arbs i with exited := true },
                syssent := s.syssent ++ [.deregister i] }
     else s
@@ -206,6 +227,37 @@ def blockOnFuel {α : Type} : Nat → Fut α → Option α
 
 def blockOn {α : Type} (f : Fut α) : Option α := blockOnFuel (f.pend + 1) f
 
+/-! ### thread-locals: what `Arbiter::current()` / `System::current()` return
+
+`HANDLE` (arbiter.rs:18-20) and `CURRENT` (system.rs:18-20) are per OS thread.  They are *overwritten*
+by `System::new()` on that thread (`Arbiter::in_new_system` sets `HANDLE` to the new system arbiter,
+`System::construct` → `set_current` sets `CURRENT`) and by the first statements of an `Arbiter::new`
+thread (arbiter.rs:131-133); nothing else writes them (dropping a `SystemRunner` does not). -/
+structure TLS where
+  /-- `HANDLE`: the arbiter `Arbiter::current()` returns -/
+  handle : Option Nat := none
+  /-- `CURRENT`: id of the system `System::current()` returns -/
+  current : Option Nat := none
+  deriving DecidableEq, Repr, Inhabited
+
+inductive TAct where
+  /-- `System::new()` on this thread: system `sid` with system arbiter `aid` -/
+  | newSystem (sid aid : Nat)
+  /-- this thread is the one `Arbiter::new()` created for arbiter `aid` of system `sid` -/
+  | arbThread (sid aid : Nat)
+  /-- a `SystemRunner` hosted by this thread is dropped, or `run` returns -/
+  | dropRunner
+  deriving DecidableEq, Repr, Inhabited
+
+def TLS.step (t : TLS) : TAct → TLS
+  | .newSystem sid aid => { handle := some aid, current := some sid }
+  | .arbThread sid aid => { handle := some aid, current := some sid }
+  | .dropRunner => t
+
+def TLS.run (t : TLS) : List TAct → TLS
+  | [] => t
+  | a :: r => TLS.run (t.step a) r
+
 /-! ### T1: the source lines the transition rules above are written from
 
 Regenerated from /repo on every check by tools/spans/rt.py (shape facts, not kernels).  Each fact
@@ -220,7 +272,8 @@ def sourceShapeC09 : Bool :=
   Src.rtCtrlLoopsUntilPending && Src.rtRunZeroIsOk && Src.rtRunUsesRunWithCode &&
   Src.rtRunWithCodeBlocksOnOneshot && Src.rtStopSendsExit && Src.rtThreadLocalsBeforeRegister &&
   Src.rtRegisterBeforeReady && Src.rtReadyBeforeRun && Src.rtDeregisterAfterRun && Src.rtNewWaitsForReady &&
-  Src.rtRunnerStopEnds && Src.rtHandleStopSends && Src.rtJoinJoinsThread
+  Src.rtRunnerStopEnds && Src.rtHandleStopSends && Src.rtJoinJoinsThread &&
+  Src.rtSysArbRegisteredFirst && Src.rtDeregisterOwnId && Src.rtRegisterOwnId
 
 /-- `runner` rule: `Stop` ends the loop, `Execute` is `spawn_local`ed (started later, by `task`), a
 closed channel ends it; `send` rule: `spawn`/`spawn_fn`/`stop` are one `tx.send(..).is_ok()`. -/
@@ -228,6 +281,9 @@ def sourceShapeC10 : Bool :=
   Src.rtRunnerLoopsUntilPending && Src.rtRunnerClosedEnds && Src.rtRunnerStopEnds &&
   Src.rtRunnerExecuteSpawnsLocal && Src.rtHandleSpawnSends && Src.rtHandleSpawnFnIsSpawn &&
   Src.rtHandleStopSends && Src.rtArbiterSpawnSends && Src.rtArbiterStopSends && Src.rtJoinJoinsThread &&
-  Src.rtThreadLocalsBeforeRegister && Src.rtReadyBeforeRun && Src.rtDeregisterAfterRun
+  Src.rtThreadLocalsBeforeRegister && Src.rtReadyBeforeRun && Src.rtDeregisterAfterRun &&
+  Src.rtInNewSystemSetsHandle && Src.rtInNewSystemSpawnsRunner && Src.rtConstructSetsCurrent &&
+  Src.rtSetCurrentOverwrites && Src.rtArbThreadSetsHandle && Src.rtCurrentReadsHandle &&
+  Src.rtSysArbRegisteredFirst
 
 end ActixNet.Rt
